@@ -17,6 +17,7 @@ DOC = {
         'C15.R1': 'every io::Result produced on the group path is PROPAGATED / RETURNED / LOGGED / ERR-RETURNED; closures receiving an io::Result do not discard it silently; named exceptions only',
         'C15.R2': 'hash_file_or_log_err / hash_transformed_or_log_err / file_info_or_log_err: Err -> log (except NotFound) -> None; Ok -> Some',
         'C15.R3': 'no unwrap()/expect() on an io::Result in any body reachable from group_files (named exceptions)',
+        'C15.R10': 'a file that cannot be read is never reported as a duplicate, also when no stage would read it: the groups that pass unhashed are opened and their length compared before they are reported (re-evaluates C01.R15)',
         'C15.R9': 'readable files are not lost to descriptors leaked by OTHER files: helper threads that can block are joined (re-evaluates C19.R8)',
         'C15.R8': 'an entry of the stdin list that cannot be a path at all (it contains a NUL byte) is left out alone, with a warning, instead of aborting the run in Path::from (re-evaluates C09.R12 no-nul-line)',
         'C15.R7': 'a file that cannot be read completely (it shrank after the scan) is never reported: the hasher compares the scanned length with the length of the open file (re-evaluates C01.R10)',
@@ -50,6 +51,7 @@ EXC = [
     (r'^<file::FileHash as std::convert::From<u128>>::from$', r'write_u128$', 'writes into an in-memory buffer'),
     (r'^cache::HashCacheFlusher::start::\{closure#0\}$', r'flush$', 'periodic cache flusher: the final close() reports errors'),
     (r'^hasher::evict_page_cache', r'posix_fadvise$', 'advice to the kernel only'),
+    (r'^group::is_still_one_file::\{closure#\d+\}$', r'^std::fs::File::open$', 'a probe of a group that no stage reads: a failure sends the group through the hashing path, which reports the file (C01.R15 checks that the probe exists)'),
     (r'^group::stdout_file_id$', r'fstat$', 'probe of where the standard output goes: if it cannot be examined, no file is excluded from the scan on its account'),
 ]
 
@@ -90,6 +92,8 @@ def run(ctx):
     reevaluate(ctx, 'C15.R8', c09.r12d)
     from . import c19
     reevaluate(ctx, 'C15.R9', c19.r8)
+    from . import c01 as c01_
+    reevaluate(ctx, 'C15.R10', c01_.r15)
     from .common import run_mandatory
     run_mandatory(ctx, 'C15')
     if ctx.tier == 'thorough' and not getattr(ctx, 'sibling', None):
